@@ -4,6 +4,33 @@
 K = {"name": "TestKnown", "enum": True}
 
 CHECKS = {
+    "C14": {
+        "level": "exploration",
+        "tests": [
+            {"name": "TestC14Padding", "checks": [500, 3000], "shards": [2, 16], "floor": 0.5},
+            {"name": "TestC14Thresholds", "enum": True},
+            K,
+        ],
+        "assumptions": ["padding text has non-blank ends and contains no opening delimiter; comment padding is not placed next to dashed delimiters"],
+    },
+    "C13": {
+        "level": "exploration",
+        "tests": [
+            {"name": "TestC13Dashes", "checks": [3000, 15000], "shards": [2, 16], "floor": 0.8},
+            {"name": "TestC13Singles", "enum": True},
+            K,
+        ],
+        "assumptions": ["a dash affects only the text segment adjacent to its delimiter (an all-blank segment is removed entirely; trimming does not continue beyond the next tag)"],
+    },
+    "C04": {
+        "level": "exploration",
+        "tests": [
+            {"name": "TestC04Text", "checks": [4000, 20000], "shards": [2, 16], "floor": 0.7},
+            {"name": "TestC04Bytes", "enum": True},
+            K,
+        ],
+        "assumptions": ["text directly before a tag never ends in '{' or '\\' and no text contains an opening delimiter (the property does not say how '{{{' or '\\{{' read)"],
+    },
     "C09": {
         "level": "exploration",
         "tests": [
